@@ -318,3 +318,108 @@ def replay_locks(trace):
     ev = lock_events(trace)
     ans = run_lines(MODEL, ["locks-replay " + (";".join(ev) if ev else "-")])[0]
     return ans, ev
+
+
+# ----------------------------------------------------------------------------- wait-for replay (Waits acceptor)
+
+OOB_KEY = 1000000
+
+
+def wait_events(trace, deps_by_name=None):
+    """Events for the Waits acceptor + the reach table.  `deps_by_name`: target name -> declared direct dependencies
+    (names); None = the declared graph is unknown, G2 is then not checked (every process may ask for anything)."""
+    fid_of, name_of = {}, {}
+    for pid, ts, name, a in trace:
+        if name == "job.begin" and len(a) >= 3:
+            fid_of[a[2]] = int(a[0])
+            name_of[int(a[0])] = a[2]
+        elif name == "run.locked" and len(a) >= 2:
+            fid_of[a[1]] = int(a[0])
+            name_of[int(a[0])] = a[1]
+    started, child_of, mode, open_exec, alive_under = set(), {}, {}, set(), {}
+    ev = []
+    fids = set()
+
+    def kill_children(key):
+        # a shell (or redo-unlocked) has waited for its children before its parent reaps it
+        for q in list(alive_under.get(key, ())):
+            if q in started:
+                ev.append("ex,%d" % q)
+                started.discard(q)
+        alive_under.pop(key, None)
+
+    for pid, ts, name, a in trace:
+        if name == "job.child":
+            child_of[pid] = int(a[0]) + (OOB_KEY if a[1] == "oob" else 0)
+        elif name == "run.begin":
+            ppid = int(a[-1]) if a and a[-1].isdigit() else -1
+            u = child_of.get(ppid)
+            if pid in started:
+                continue
+            started.add(pid)
+            ev.append("st,%d,%s" % (pid, "-" if u is None else str(u)))
+            if u is not None:
+                alive_under.setdefault(u, set()).add(pid)
+        elif pid not in started:
+            continue                      # redo-log's lock probes, start-up self tests
+        elif name == "lock.try":
+            fid = int(a[0])
+            if 0 < fid < LOG_LOCK_MAGIC and a[1] == "1":
+                ev.append("lo,%d,%d" % (pid, fid)); fids.add(fid)
+        elif name == "lock.wait.begin":
+            fid = int(a[0])
+            if 0 < fid < LOG_LOCK_MAGIC:
+                ev.append("wb,%d,%d" % (pid, fid)); fids.add(fid)
+        elif name == "lock.wait.end":
+            fid = int(a[0])
+            if 0 < fid < LOG_LOCK_MAGIC:
+                ev.append("we,%d,%d" % (pid, fid))
+        elif name == "lock.unlock":
+            fid = int(a[0])
+            if 0 < fid < LOG_LOCK_MAGIC and not mode.get((pid, fid)):
+                ev.append("ul,%d,%d" % (pid, fid))
+        elif name == "job.begin":
+            mode[(pid, int(a[0]))] = a[1] == "unlocked"
+        elif name == "job.script":
+            k = int(a[0])
+            ev.append("sc,%d,%d" % (pid, k)); open_exec.add((pid, k)); fids.add(k)
+        elif name == "job.oob":
+            k = int(a[0]) + OOB_KEY
+            ev.append("sc,%d,%d" % (pid, k)); open_exec.add((pid, k)); fids.add(int(a[0]))
+        elif name in ("job.record.end", "job.oob.end"):
+            k = int(a[0]) + (OOB_KEY if name == "job.oob.end" else 0)
+            if (pid, k) in open_exec:
+                kill_children(k)
+                ev.append("se,%d,%d" % (pid, k)); open_exec.discard((pid, k))
+        elif name == "run.end":
+            if pid in started:
+                ev.append("ex,%d" % pid)
+                started.discard(pid)
+                for s_ in alive_under.values():
+                    s_.discard(pid)
+    # reach: transitive declared dependencies, by fid; the out-of-band key of f reaches what f reaches
+    reach = {}
+    if deps_by_name is not None:
+        def closure(n, seen):
+            for d in deps_by_name.get(n, ()):
+                if d not in seen:
+                    seen.add(d)
+                    closure(d, seen)
+            return seen
+        for n, f in fid_of.items():
+            r = sorted(fid_of[x] for x in closure(n, set()) if x in fid_of)
+            reach[f] = r
+            reach[f + OOB_KEY] = r
+    else:
+        allf = sorted(fids)
+        for f in allf:
+            reach[f] = allf
+            reach[f + OOB_KEY] = allf
+    rs = ";".join("%d:%s" % (u, "_".join(map(str, r)) or "-") for u, r in sorted(reach.items())) or "-"
+    return rs, ev
+
+
+def replay_waits(trace, deps_by_name=None):
+    rs, ev = wait_events(trace, deps_by_name)
+    ans = run_lines(MODEL, ["waits-replay %s %s" % (rs, ";".join(ev) if ev else "-")])[0]
+    return ans, ev, rs
